@@ -35,6 +35,14 @@ func main() {
 	idx := GP64()
 	XORL(idx.As32(), idx.As32())
 
+	Comment("The unrolled loop compares four keys at a time, so it may only run over")
+	Comment("the largest multiple of 8 words that fits in xs.")
+	n8 := GP64()
+	MOVQ(n, n8)
+	ANDQ(I32(-8), n8)
+	CMPQ(idx, n8)
+	JAE(LabelRef("tail"))
+
 	Label("loop")
 	m := Mem{Base: ptr, Index: idx, Scale: 8}
 
@@ -56,9 +64,17 @@ func main() {
 
 	Comment("plus8")
 	ADDQ(Imm(8), idx)
-	CMPQ(idx, n)
+	CMPQ(idx, n8)
 	JB(LabelRef("loop"))
-	JMP(LabelRef("NotFound"))
+
+	Label("tail")
+	Comment("Remaining keys (fewer than four), one at a time.")
+	CMPQ(idx, n)
+	JAE(LabelRef("NotFound"))
+	CMPQ(m, key)
+	JAE(LabelRef("Found"))
+	ADDQ(Imm(2), idx)
+	JMP(LabelRef("tail"))
 
 	Label("Found2")
 	ADDL(Imm(2), idx.As32())
